@@ -5,6 +5,7 @@
      (the input itself when the order is fixed: Buffer, one worker);
    - the model network of the same construct is run on the same input under a schedule derived
      from the case id and must itself finish with everything delivered and nothing dropped. *)
+From Coq Require Import FMapPositive.
 From FunV Require Import Base.Tac Model.Pipelines.
 
 Inductive case := C01Case (id construct workers cap : Z) (input delivered : list Z) (ok : bool).
@@ -14,8 +15,14 @@ Definition case_id (c : case) : Z := match c with C01Case id _ _ _ _ _ _ => id e
 Fixpoint countZ (x : Z) (l : list Z) : nat :=
   match l with [] => 0 | y :: r => (if Z.eqb x y then 1 else 0) + countZ x r end.
 
+(* multiset equality through a count map (O(n log n): the volume cases carry 2000 items) *)
+Definition zkey (x : Z) : positive := if (x <? 0)%Z then xO (Z.to_pos (- x)) else xI (Z.to_pos (x + 1)).
+Definition counts (l : list Z) : PositiveMap.t nat :=
+  fold_left (fun m x => let k := zkey x in PositiveMap.add k (S (match PositiveMap.find k m with Some c => c | None => 0 end)) m) l (PositiveMap.empty nat).
+Definition cnt_in (m : PositiveMap.t nat) (x : Z) : nat := match PositiveMap.find (zkey x) m with Some c => c | None => 0 end.
 Definition permb (a b : list Z) : bool :=
-  (length a =? length b) && forallb (fun x => countZ x a =? countZ x b) a.
+  let ma := counts a in let mb := counts b in
+  (length a =? length b) && forallb (fun x => cnt_in ma x =? cnt_in mb x) a.
 
 Fixpoint list_eqb (a b : list Z) : bool :=
   match a, b with
